@@ -87,7 +87,7 @@ class Unit:
         mem, get = {}, {}
         found = False
         for fn, txt in self.files.items():
-            if not fn.endswith(".h") or ("class " + cls) not in txt:
+            if not fn.endswith(".h") or not re.search(r"\bclass\s+" + re.escape(cls) + r"\s*[:{]", txt):
                 continue
             ht = self.htoks.get(fn)
             if ht is None:
@@ -835,12 +835,24 @@ def serial_seq(unit, fn):
             elif "Serialize" in st:
                 seq.append(("S" + tag, memname(st[:st.index("Serialize")])))
         else:
-            if "=" in st and ("ints" in st or "doubles" in st):
-                e = st.index("=")
-                stream = "I" if "ints" in st[e:] else "D"
-                seq.append((stream + tag, memname(st[:e])))
-            elif "Deserialize" in st:
+            if "Deserialize" in st:
                 seq.append(("S" + tag, memname(st[:st.index("Deserialize")])))
+            else:
+                # every read `ints[...]` / `doubles[...]` in textual order
+                reads = [("I" if st[q] == "ints" else "D") for q in range(len(st) - 1)
+                         if st[q] in ("ints", "doubles") and st[q + 1] == "["]
+                if reads:
+                    if "=" in st:
+                        lhs = st[:st.index("=")]
+                    elif "push_back" in st:
+                        lhs = st[:st.index("push_back")]
+                    elif "insert" in st:
+                        lhs = st[:st.index("insert")]
+                    else:
+                        lhs = st
+                    local = bool(lhs) and lhs[0] in ("int", "size_t", "double", "unsigned", "long", "bool", "std", "const")
+                    for q, stream in enumerate(reads):
+                        seq.append((stream + tag, "<local>" if local else (memname(lhs) if q == len(reads) - 1 else "<key>")))
     for n in body:
         walk(n, f)
     return seq
